@@ -198,8 +198,13 @@ def run(ctx):
     for i in mism[:5]:
         ctx.violation("rule evaluation: implementation %r, model %r" % (impl[i], ans[i]),
                       {"op": reqs[i][0], "arg": reqs[i][1], "impl": impl[i], "model": ans[i]})
+    # the rules of every step and inspection through the whole of in_toto_verify, verdicts fixed by construction
+    from harness import c03pipe
+    pipe_n, pipe_bad = c03pipe.run(ctx)
+    for what, rp in pipe_bad[:4]:
+        ctx.violation("rules inside in_toto_verify: " + what[:600], rp)
     broken = ctx.broken_obligations()
-    if broken and not mism:
+    if broken and not mism and not pipe_bad:
         ctx.violation("broken obligation(s): " + "; ".join(n for n, _ in broken),
                       {"broken": [{"name": n, "detail": d} for n, d in broken]}, no_input=True)
     outcomes, ruletypes, consumed_some = {}, {}, 0
@@ -227,6 +232,8 @@ def run(ctx):
         "unmodelled_patterns_skipped": unmodelled, "impl_outcomes": outcomes, "rule_types": ruletypes,
         "cases_where_rules_consumed_something": consumed_some, "distinct_cases": len(distinct),
         "kernel_sample_cases": kn,
+        "pipeline_cases_fixed_by_construction": {"cases": pipe_n, "problems": len(pipe_bad),
+                                                 "what": "11 rule lists x 4 positions (step / inspection, materials / products) x inspection links persisted or not, through in_toto_verify"},
     }
     return core.finish(ctx, "proof", cov, [
         "theorems are about Model/Rules.v for an arbitrary matcher; correspondence: real verify_item_rules vs extracted model",
@@ -235,6 +242,16 @@ def run(ctx):
 
 def replay(ctx, obj):
     r = obj["replay"]
+    if r.get("kind") == "c03pipe":
+        from harness import c03pipe
+        _, bad = c03pipe.run(ctx)
+        for what, _rp in bad[:6]:
+            print("  -> " + what[:400])
+        if bad:
+            print("VIOLATION property=C03 replay=%s" % obj.get("rerun", "").split()[-1])
+            return 1
+        print("agree")
+        return 0
     model = core.Model()
     if r["op"] == "rules_trace":
         i = impl_rules(r["arg"])
